@@ -115,23 +115,23 @@ func parseBitfieldEncodingType(encoding string) (signed bool, width int) {
 
 func parseBitfieldOffset(spec string, width int) (offset int, valid bool) {
 	if strings.HasPrefix(spec, "#") {
-		n, err := strconv.ParseInt(spec[1:], 10, 32)
+		n, err := strconv.ParseInt(spec[1:], 10, 64)
 		if err != nil {
 			valid = false
 			return
 		}
-		if n < 0 {
+		if n < 0 || n >= maxBitOffset {
 			valid = false
 			return
 		}
 		offset = int(n) * width
 	} else {
-		n, err := strconv.ParseInt(spec, 10, 32)
+		n, err := strconv.ParseInt(spec, 10, 64)
 		if err != nil {
 			valid = false
 			return
 		}
-		if n < 0 {
+		if n < 0 || n >= maxBitOffset {
 			// a bit offset can't be negative
 			valid = false
 			return
@@ -377,7 +377,7 @@ func fnGetBit(ctx *cmdContext, args map[string]any) (output respValue, err error
 	keyName := args["key"].(string)
 	bit64 := args["offset"].(int64)
 
-	if bit64 < 0 {
+	if bit64 < 0 || bit64 >= maxBitOffset {
 		output.data = respErrorString("ERR bit offset is not an integer or out of range")
 		return
 	}
